@@ -1,4 +1,18 @@
+import Psa.Str
 namespace PSA.Webhook
+open PSA
+
+/-- HandleValidate's request screening, in the order the handler tests: what HTTP status a request is answered with
+    before (200) or instead of reaching the admission library -/
+def classify (maxSize : Nat) (empty : Bool) (size : Nat) (contentType : Str) (decodes v1review hasRequest : Bool) : Nat :=
+  if empty then 400
+  else if size ≥ maxSize then 413
+  else if contentType ≠ b!"application/json" then 400
+  else if !decodes then 400
+  else if !v1review then 400
+  else if !hasRequest then 400
+  else 200
+
 
 inductive Variant | writesThroughReturned | copies deriving DecidableEq, Repr
 inductive Ptr | shared | own deriving DecidableEq, Repr
